@@ -101,7 +101,8 @@ def same_obs(a, b, pe, check_tag=True):
         dsc = max(np.max(np.abs(a.deltas[n])), abs(a.r_values[n] - a.value))
         if not np.all(np.abs(a.deltas[n] - b.deltas[n]) <= 1e-13 * dsc + 4e-16 * abs(a.r_values[n] - a.value) + 1e-300):
             return 'fluctuations of %s differ by %g (scale %g)' % (n, np.max(np.abs(a.deltas[n] - b.deltas[n])), csc)
-        if not abs(a.r_values[n] - b.r_values[n]) <= 1e-13 * csc:
+        # the replica mean is value + mean of the stored column: a few rounding units of the mean plus the relative accuracy of the offset
+        if not abs(a.r_values[n] - b.r_values[n]) <= 1e-13 * dsc + 8e-16 * abs(a.r_values[n]) + 1e-300:
             return 'replica mean of %s: %r -> %r' % (n, a.r_values[n], b.r_values[n])
     if a.N != b.N:
         return 'N %d -> %d' % (a.N, b.N)
